@@ -81,6 +81,8 @@ def parse_cases(text):
             cur.faults.append((w[1], w[2], dec(w[3]), int(w[4])))
         elif w[0] == "CRASH":
             cur.crash = int(w[1])
+        elif w[0] == "PAUSE":
+            cur.meta["pause"] = (int(w[1]), int(w[2]), int(w[4]))
         elif w[0] == "OP":
             cur.ops.append(_parse_op(w[1:]))
         elif w[0] == "END":
